@@ -597,4 +597,14 @@ def s1(ctx):
     relabel(ctx, "C02.S1", c03.r6, lambda c: c19.r3(c, rule="C02.S1"))
 
 
+def _s1_parts():
+    from .shared import relabel
+    from . import c03, c19
+    from .shared import relabel_parts
+    return relabel_parts("C02.S1", c03.r6, lambda c: c19.r3(c, rule="C02.S1"))
+
+
+s1.parts = _s1_parts
+
+
 RULES = [("C02.R1", r1), ("C02.R2", r2), ("C02.R3", r3), ("C02.R4", r4), ("C02.R5", r5), ("C02.R6", r6), ("C02.R7", r7), ("C02.R8", r8), ("C02.R9", r9), ("C02.F1", f1), ("C02.S1", s1)]
